@@ -204,7 +204,6 @@ func VerifC10RegisterPort() {
 	}
 }
 
-
 // VerifC09UDPDoubleClose: the second Close of a udp proxy (run by the forwarder's exit
 // goroutine) must not free a port that another proxy acquired in between.
 func VerifC09UDPDoubleClose() {
